@@ -41,6 +41,8 @@ SCENARIOS = {
     "first-of:CompleteStage(B)||CompleteStage(C)": (wl("join_e", "DISCRIMINATOR"), ["CompleteStage:B", "CompleteStage:C", "StartStage:D"], [2, 2]),
     "quorum2of3:CompleteStage(B)||CompleteStage(C)": (wl("join_e", "N_OF_M", 2, 3), ["CompleteStage:B", "CompleteStage:C", "StartStage:D", "StartTask:F", "StartStage:F"], [2, 2]),
     "builder-tasks:2xStartStage(D)": (wl("builder_e"), ["StartStage:D"], [2, 2]),
+    "quorum2of3:StartStage(D)||CompleteStage(F) (late branch)": (wl("join_e", "N_OF_M", 2, 3), ["StartStage:D", "CompleteStage:F"], [1, 1]),
+    "first-of3:StartStage(D)||CompleteStage(F) (late branch)": (wl("join_e", "DISCRIMINATOR", 0, 3), ["StartStage:D", "CompleteStage:F"], [1, 1]),
     "and:3xStartStage(D)": (wl("join_e", "AND", 0, 3), ["StartStage:D"], [1, 1, 1]),
 }
 
